@@ -265,6 +265,39 @@ def gen_cases(rng, proxy, port, dirlen, n, focus):
                 seq = [rng.choice(with_q + bad_q + no_q + other) for _ in range(rng.randint(2, 5))]
             groups.append([rq(t) for t in seq])
         return groups
+    if focus == "abandon":
+        # downloads the peer abandons (gone before the answer, half closed, read error, still there), for files
+        # of more than one 32767-byte write, .vnc pages, small files, directories, 404s, refused and proxy requests:
+        # the descriptor count must be back at the baseline after every one (observation `leak`)
+        tg = [b"/big.bin", b"/big.vnc", b"/a.txt", b"/index.vnc", b"/ex32768.vnc", b"/straddle2.vnc", b"/nonexist",
+              b"/../secret", b"/sub", b"/empty", b"/d.vnc"]
+        for rep in range(2):
+            for t_ in tg:
+                for e_ in ("full", "half", "reset", "keep"):
+                    one(b"GET " + t_ + b" HTTP/1.0\r\n\r\n", (), e_)
+                one(b"GET " + t_ + b"\n\n", (5,), "full")
+        if proxy:
+            P = str(port).encode()
+            for e_ in ("full", "half", "keep"):
+                one(b"CONNECT h:" + P + b"\r\n\r\n", (), e_)
+                one(b"GET /proxied.connection HTTP/1.0\r\n\r\n", (), e_)
+                one(b"CONNECT h:1\r\n\r\n", (), e_)
+            b_ = b"CONNECT h:" + P + b"\r\n\r\n"
+            one(b_ + b"RFB 003.008\n", (len(b_),), "half")
+        return groups
+    if focus == "fname":
+        # the name written behind httpDir in fullFname[512]: every name length around the room that is left,
+        # in every request-line form sscanf accepts (version, no version, short tails, trailing blanks)
+        tails = [b" HTTP/1.0", b" HTTP/1.1", b"", b" x", b"   ", b"\tHTTP/1.0", b" H", b" HTTP/1."]
+        for dlt in range(-12, 13):
+            L = maxfn + dlt
+            if L < 2:
+                continue
+            for tl in tails:
+                one(b"GET /" + b"a" * (L - 1) + tl + b"\r\n\r\n")
+            one(b"GET  /" + b"b" * (L - 1) + b"\n\n")
+            one(b"GET /" + b"c" * max(0, L - 6) + b"?x=y1" + b"\n\n")
+        return groups
     if focus == "subst":
         # every $-variable under several desktop names / USER settings (also unset), every edge-case .vnc file,
         # peers that are gone before / while the page is expanded
@@ -499,6 +532,9 @@ def oracle(sc, impl):
         if ob in ("bad-op", "no-conn", "short-write"):
             return "op %d: harness could not run the request: %s" % (i, ob)
         d = parse_ob(ob)
+        if d.get("leak", "0") != "0":
+            return ("op %d: %s descriptor(s) still open after the request was finished (beyond the live HTTP "
+                    "connection): every such request costs the server process a file descriptor" % (i, d["leak"]))
         b = unhx(t[1])
         seen = b[:BUF - 1]
         whole = (hist + b)[:BUF - 1]      # a server that kept earlier bursts would decide on this
@@ -618,6 +654,11 @@ def run_slow(ctx, sc, h, env, dist):
         if "vstall" not in d:
             return {"kind": "oracle", "what": "C20 oracle", "script": ops, "impl": impl,
                     "detail": "op %d: harness could not run slowreq: %s" % (i, ob)}
+        if d.get("leak", "0") != "0":
+            return {"kind": "oracle", "what": "C20 oracle (descriptor leak)",
+                    "script": [l for l in ops[:i + 1] if not l.startswith(("slowreq", "req")) or l == op], "impl": [ob],
+                    "detail": "op %d: %s descriptor(s) still open after a download was abandoned by a peer that "
+                              "does not read" % (i, d["leak"])}
         v = int(d["vstall"])
         dist["virtual_stall_ms"][unhx(t[1]).split()[1].decode("latin1")] = v
         if v > STALL_BOUND_MS:
@@ -710,6 +751,9 @@ def _run(ctx, env):
                 plan.append((proxy, rng.choice([70, 255]), "seg"))
             plan.append((proxy, rng.choice([70, 200]), "leak"))
             plan.append((proxy, rng.choice([70, 150]), "subst"))
+            plan.append((proxy, rng.choice([70, 120]), "abandon"))
+            plan.append((proxy, [70, 255][proxy], "fname"))
+            plan.append((proxy, rng.choice([100, 200, 254]), "fname"))
             plan.append((proxy, rng.choice([70, 254]), "accept"))
             plan.append((proxy, 80, "long"))
             plan.append((proxy, 255, "long"))
